@@ -120,6 +120,7 @@ class BoundedRead:
                         self.B.add(name)
                         changed = True
         self.N = yield_vars(fn)  # received lengths (and tuple results of delegated scanners)
+        self.scanner_results = {name for name, vals in self.asg.items() if vals and all(isinstance(v, ast.YieldFrom) for v in vals)}
         self.bounded = set(self.N)
         self._grow_bounded()
         self.sites: list[tuple[ast.AST, bool, str]] = []
@@ -138,7 +139,10 @@ class BoundedRead:
         lin = linear(e)
         if lin is not None:
             names = [k for k in lin if k and not k.startswith("len(")]
-            return bool(names) and all(n in self.bounded or n in self.sep_lens for n in names) and any(n in self.bounded for n in names)
+            # a field of a delegated scanner's result (`found = yield from scan(...)`; `found.sepidx`) is trusted like the
+            # elements of its unpacked tuple
+            bnd = lambda n: n in self.bounded or ("." in n and n.split(".")[0] in self.scanner_results)
+            return bool(names) and all(bnd(n) or n in self.sep_lens for n in names) and any(bnd(n) for n in names)
         return False
 
     def _grow_bounded(self) -> None:
